@@ -853,6 +853,54 @@ gen := () -> () -> (bool, int) { k := mut 0; return () -> (bool, int) { res := *
     (n, out)
 }
 
+/// `$+` and `$*` over ints are the documented folds with wrapping arithmetic (modulo 2^64), as `+`
+/// and `*` themselves: every sequence of length 0..=3 over {MAX_INT, MIN_INT, 2^62, 1, -5, 3} x four
+/// routes (array, array behind a map, user-written iterator, the same written as a loop with `+`).
+fn wrapping_int_folds() -> (u64, Vec<Violation>) {
+    let vals: [i64; 6] = [i64::MAX, i64::MIN, 1 << 62, 1, -5, 3];
+    let lit = |v: i64| crate::props::c08::int_lit(v);
+    let mut seqs: Vec<Vec<i64>> = vec![vec![]];
+    for a in vals {
+        seqs.push(vec![a]);
+        for b in vals {
+            seqs.push(vec![a, b]);
+            for c in vals {
+                seqs.push(vec![a, b, c]);
+            }
+        }
+    }
+    let mut n = 0u64;
+    let mut out = Vec::new();
+    for seq in &seqs {
+        let arr = format!("[{}]", seq.iter().map(|v| lit(*v)).collect::<Vec<_>>().join(", "));
+        let arr = if seq.is_empty() { "[0; 0]".to_string() } else { arr };
+        let sum = seq.iter().fold(0i64, |a, v| a.wrapping_add(*v));
+        let prod = seq.iter().fold(1i64, |a, v| a.wrapping_mul(*v));
+        let want = format!("({sum}, {prod})");
+        for (route, src) in [
+            ("array", format!("{arr}~")),
+            ("mapped", format!("{arr}~ @ (v: int) -> int {{ return v }}")),
+            ("user-written", format!("{{ a := {arr}; i := mut 0; () -> (bool, int) {{ if *i < std.len(a) {{ i += 1; return (true, a[*i - 1]) }}; return (false, 0) }} }}")),
+            ("run-time array", format!("{{ h := (a: [int]) -> () -> (bool, int) {{ return a~ }}; h({arr}) }}")),
+        ] {
+            let text = format!("mk := () -> () -> (bool, int) {{ return {src} }}; (mk() $+, mk() $*)");
+            n += 1;
+            let o = core::run_text(&text, true, core::QUICK_FUEL);
+            let got = match &o {
+                core::Outcome::Value(v) => crate::val::canon(v),
+                other => other.tag(),
+            };
+            if got != want {
+                out.push(Violation {
+                    sig: format!("C11|int-fold-does-not-wrap|{route}|len={}", seq.len()),
+                    detail: json!({"kind": "program", "stdlib": true, "text": text, "expected": want, "observed": got}),
+                });
+            }
+        }
+    }
+    (n, out)
+}
+
 pub fn run(tier: &str) -> i32 {
     let thorough = tier == "thorough";
     let mut report = Report::new("C11", tier);
@@ -954,6 +1002,8 @@ pub fn run(tier: &str) -> i32 {
     report.violations(failing.2);
     let visits = core::on_big_stack(callers_names_during_visits);
     report.violations(visits.1);
+    let wraps = core::on_big_stack(wrapping_int_folds);
+    report.violations(wraps.1);
     report.violations(folds.1);
     let Acc { programs, events, outcomes, violations } = acc;
     report.violations(violations);
@@ -964,6 +1014,7 @@ pub fn run(tier: &str) -> i32 {
         "programs": programs,
         "failing_pull_cases (7 sources x 4 upstream stages x 10 consumers, operator form against its definition as a loop over it(); result and log)": failing.0,
         "failing_pull_cases_in_which_a_pull_fails": failing.1,
+        "wrapping_int_fold_programs (sequences of length 0..=3 over 6 boundary ints x 4 routes, $+ and $*)": wraps.0,
         "visits_next_to_callers_names (10 sources x 9 per-element consumers x 22 spellings of the sources' own locals, bound by the caller to a run-time value)": visits.0,
         "float_and_string_fold_cases (sequences of length 0..=4 over 9 floats + 3 long ones x 4 routes, bit-exact against the left fold)": folds.0,
         "reference_events_compared": events,
